@@ -65,6 +65,70 @@ func TestHandlerStress(t *testing.T) {
 	problems := []string{}
 	var ops, accepted, refused, hookTraces, hookEvents int64
 
+	// ---- hand-off rounds: a page (or the final frame) is handed to its request at the very moment the request is
+	// completed by something else - the handler closing, or the request's read timeout. The window lies between
+	// onFrameReceived reading the request's channel and sending on it: a send on a closed channel kills the process
+	// (the driver reports the crash); afterwards the request must be completed, and failed unless its final frame got in.
+	var handoffs int64
+	for round := 0; round < rounds*4; round++ {
+		ctx, cancel := context.WithCancel(context.Background())
+		timeout := time.Hour
+		byTimer := round%2 == 1
+		if byTimer {
+			timeout = time.Duration(20+round%7*10) * time.Microsecond
+		}
+		h := client.VerifNewInFlightHandler(ctx, 1, 4, timeout)
+		req, err := h.Enqueue(frame.NewFrame(primitive.ProtocolVersion4, 0, &message.Options{}))
+		if err != nil {
+			problems = append(problems, fmt.Sprintf("hand-off round %d: first send refused: %v", round, err))
+			cancel()
+			continue
+		}
+		final := round%4 >= 2
+		var start int32
+		var wg sync.WaitGroup
+		wg.Add(2)
+		go func() {
+			defer wg.Done()
+			for atomic.LoadInt32(&start) == 0 {
+			}
+			if byTimer {
+				// pages until the timeout has fired between two of them
+				for i := 0; i < 50 && !req.IsDone(); i++ {
+					_ = h.Deliver(responseFrame(1, false, i))
+					for spin := 0; spin < (round%13)*(i%5)*40; spin++ {
+						runtime.Gosched()
+					}
+				}
+			} else {
+				_ = h.Deliver(responseFrame(1, final, round))
+			}
+		}()
+		go func() {
+			defer wg.Done()
+			for atomic.LoadInt32(&start) == 0 {
+			}
+			if !byTimer {
+				h.Close()
+			}
+		}()
+		atomic.StoreInt32(&start, 1)
+		wg.Wait()
+		if byTimer {
+			for i := 0; i < 2000 && !req.IsDone(); i++ {
+				time.Sleep(50 * time.Microsecond)
+			}
+		}
+		h.Close()
+		atomic.AddInt64(&handoffs, 1)
+		if !req.IsDone() {
+			problems = append(problems, fmt.Sprintf("hand-off round %d: the request is not completed after close", round))
+		} else if req.Err() == nil && !(final && !byTimer) {
+			problems = append(problems, fmt.Sprintf("hand-off round %d: the request was completed without an error although its final frame never arrived", round))
+		}
+		cancel()
+	}
+
 	// ---- small rounds: histories
 	for round := 0; round < rounds; round++ {
 		n := 1 + (round+seed)%2 // N = 1 or 2
@@ -335,6 +399,6 @@ func TestHandlerStress(t *testing.T) {
 		problems = problems[:20]
 	}
 	b, _ := json.Marshal(map[string]interface{}{"rounds": rounds, "big_rounds": bigRounds, "ops": ops, "accepted": accepted, "refused": refused,
-		"distinct_histories": len(order), "hook_traces": hookTraces, "hook_events": hookEvents, "problems": problems})
+		"distinct_histories": len(order), "hook_traces": hookTraces, "hook_events": hookEvents, "handoff_rounds": handoffs, "problems": problems})
 	fmt.Println("HSTRESS " + string(b))
 }
